@@ -228,18 +228,7 @@ def run(model: Model, rep: Report) -> None:
     # ---------------------------------------------------------------- R7
     _memo_purity(model, rep)
     # ---------------------------------------------------------------- R8
-    r8 = rep.rule("C12-R8", "DEPEND", "the font cache is keyed by object numbers only: a font dictionary written inline in a resource dictionary has no document-wide identity and is not cached", 2)
-    ir = model.func("pdfminer.pdfinterp.PDFPageInterpreter.init_resources")
-    gf_calls = [c for c in walk_no_nested(ir.node) if isinstance(c, ast.Call) and (dotted(c.func) or "").endswith("get_font")]
-    if not gf_calls or not isinstance(gf_calls[0].args[0], ast.Name):
-        raise AnchorMissing("init_resources: get_font(objid, spec) call not found")
-    kv = gf_calls[0].args[0].id
-    vals = [n.value for n in walk_no_nested(ir.node) if isinstance(n, ast.Assign) and any(isinstance(t, ast.Name) and t.id == kv for t in n.targets)]
-    badv = [v for v in vals if not ((isinstance(v, ast.Constant) and v.value is None) or (isinstance(v, ast.Attribute) and v.attr == "objid"))]
-    r8.check(bool(vals) and not badv, site(ir, badv[0]) if badv else site(ir), ir.qualname, f"`{kv}` is None or the object number of the reference the font was reached through", why=f"`{kv} = {unparse(badv[0])}`: a resource name (like /F1) is local to one resource dictionary; two pages defining /F1 inline and differently would share whichever font was built first, so a page extracted alone differs from the same page extracted after another" if badv else "no assignment found")
-    gf = model.func("pdfminer.pdfinterp.PDFResourceManager.get_font")
-    sgf = "".join(unparse(gf.node).split())
-    r8.check("ifobjidandobjidinself._cached_fonts:" in sgf and "ifobjidandself.caching:self._cached_fonts[objid]=font" in sgf, site(gf), gf.qualname, "get_font consults and fills the cache only for a truthy object number", why="cache guard changed")
+    font_cache_key_rule(model, rep, "C12-R8")
 
 
 def _has_instance_state_writers(model: Model, cls: str) -> bool:
@@ -579,3 +568,31 @@ def memo_purity_rule(model: Model, rep: Report, rid: str) -> None:
 
             depends(st_.value, ())
             r7.check(not bad, site(f, st_), f.qualname, f"{unparse(st_)[:90]}: stored value depends on the key `{', '.join(sorted(key_names))}` only", why=f"the stored value also depends on the argument(s) {sorted(set(bad))} of the call that filled the table: a later call with the same key and another argument gets the first caller's value")
+
+
+def font_cache_key_rule(model: Model, rep: Report, rid: str) -> None:
+    """The font cache is keyed by object numbers only, and the key is re-derived for every font of a resource dictionary."""
+    r8 = rep.rule(rid, "DEPEND", "the font cache is keyed by object numbers only (None for a font dictionary written inline), decided anew for every font", 3)
+    ir = model.func("pdfminer.pdfinterp.PDFPageInterpreter.init_resources")
+    gf_calls = [c for c in walk_no_nested(ir.node) if isinstance(c, ast.Call) and (dotted(c.func) or "").endswith("get_font")]
+    if not gf_calls or not isinstance(gf_calls[0].args[0], ast.Name):
+        raise AnchorMissing("init_resources: get_font(objid, spec) call not found")
+    kv = gf_calls[0].args[0].id
+    vals = [n.value for n in walk_no_nested(ir.node) if isinstance(n, ast.Assign) and any(isinstance(t, ast.Name) and t.id == kv for t in n.targets)]
+    badv = [v for v in vals if not ((isinstance(v, ast.Constant) and v.value is None) or (isinstance(v, ast.Attribute) and v.attr == "objid"))]
+    r8.check(bool(vals) and not badv, site(ir, badv[0]) if badv else site(ir), ir.qualname, f"`{kv}` is None or the object number of the reference the font was reached through", why=f"`{kv} = {unparse(badv[0])}`: a resource name (like /F1) is local to one resource dictionary; two pages defining /F1 inline and differently would share whichever font was built first" if badv else "no assignment found")
+    # the loop over the fonts: within one iteration every path to get_font passes an assignment of the key
+    loops = [n for n in walk_no_nested(ir.node) if isinstance(n, ast.For) and any(x is gf_calls[0] for x in ast.walk(n))]
+    inner = min(loops, key=lambda n: len(list(ast.walk(n)))) if loops else None
+    ok = False
+    if inner is not None:
+        fn_ = ast.FunctionDef(name="_iter", args=ir.node.args, body=inner.body, decorator_list=[], lineno=inner.lineno, col_offset=0)  # type: ignore[attr-defined]
+        g = build_cfg(fn_, exc_edges=False)
+        tgt = next((n.id for n in g.nodes if n.ast is not None and n.kind == "stmt" and any(x is gf_calls[0] for x in ast.walk(n.ast))), None)
+        if tgt is not None:
+            wit = g.all_path_pass(g.entry, lambda n: n.kind == "stmt" and isinstance(n.ast, ast.Assign) and any(isinstance(t, ast.Name) and t.id == kv for t in n.ast.targets) and isinstance(n.ast.value, ast.Constant) and n.ast.value.value is None, until=[tgt])
+            ok = wit is None
+    r8.check(ok, site(ir, inner) if inner is not None else site(ir), ir.qualname, f"every iteration of the font loop starts from `{kv} = None`", why="the key is not reset per font: an inline font that follows an indirectly referenced one keeps that font's object number and is answered from the cache with the previous font")
+    gf = model.func("pdfminer.pdfinterp.PDFResourceManager.get_font")
+    sgf = "".join(unparse(gf.node).split())
+    r8.check("ifobjidandobjidinself._cached_fonts:" in sgf and "ifobjidandself.caching:self._cached_fonts[objid]=font" in sgf, site(gf), gf.qualname, "get_font consults and fills the cache only for a truthy object number", why="cache guard changed")
